@@ -10,7 +10,7 @@ import (
 
 func init() {
 	register("C02", "other", "T2 Dominates + T4 GuardedBy (mark before deliver, deliver once), T6 WhoMayCall, linear normaliser (frame bookkeeping)",
-		"Decides the structure behind 'each block delivers exactly the new ancestry, once': in the confirmation walk an event is handed to the application only on the edge where it is not yet marked confirmed, and only after it has been marked with the block's frame on the same path (the walk may visit an event twice); the mark is written nowhere else and the application's per-event callback is reachable only through that walk; the walk descends only into parents of delivered events. Frame bookkeeping: on every path of onFrameDecided the frame persisted as last decided and the frame the election is reset to differ by exactly one (frame / frame+1, or FirstFrame-1 / FirstFrame when sealing), Bootstrap creates the election at last-decided+1, and the decided (frame, atropos) pair of the election result is what is applied. Ancestry closure and 'the Atropos is a root of that frame' are graph facts and are not decided.",
+		"Decides the structure behind 'each block delivers exactly the new ancestry, once': in the confirmation walk an event is handed to the application only on the edge where it is not yet marked confirmed, and only after it has been marked with the block's frame on the same path (the walk may visit an event twice); the mark is written nowhere else and the application's per-event callback is reachable only through that walk; the walk descends only into parents of delivered events. Frame bookkeeping: on every path of onFrameDecided the frame persisted as last decided and the frame the election is reset to differ by exactly one (frame / frame+1, or FirstFrame-1 / FirstFrame when sealing), Bootstrap creates the election at last-decided+1, and the decided (frame, atropos) pair of the election result is what is applied. Roots (C02.roots): every frame slot of a root is written to the roots table in its own iteration of Store.AddRoot's slot loop, because a restarted node rebuilds the election from that table alone and a missing slot lets it decide a frame during Bootstrap, before the block callbacks exist (a block is swallowed, later blocks shift). Ancestry closure and 'the Atropos is a root of that frame' are graph facts and are not decided.",
 		[]string{"the event source returns the events that were processed", "application callbacks are opaque"},
 		runC02)
 }
@@ -45,8 +45,8 @@ func frameBookkeeping(c *core.Ctx) {
 		}
 		ok := false
 		if same != nil && same.RHS != nil && len(r.Call.Args) == 2 {
-			a := core.Linearize(f.Info(), r.Call.Args[1], namer)
-			b := core.Linearize(f.Info(), same.RHS, namer)
+			a := core.Linearize(f.Info(), resolveLocal(f, r.Call.Args[1]), namer)
+			b := core.Linearize(f.Info(), resolveLocal(f, same.RHS), namer)
 			// a - b == 1
 			diffOK := a.C.Int64()-b.C.Int64() == 1 && len(a.Coef) == len(b.Coef)
 			for k, v := range a.Coef {
@@ -72,7 +72,7 @@ func frameBookkeeping(c *core.Ctx) {
 	news := bs.CallsTo("abft/election.New")
 	okN := len(news) == 1 && len(news[0].Call.Args) == 4
 	if okN {
-		l := core.Linearize(bs.Info(), news[0].Call.Args[1], func(e ast.Expr) string {
+		l := core.Linearize(bs.Info(), resolveLocal(bs, news[0].Call.Args[1]), func(e ast.Expr) string {
 			if isCallTo(bs, e, "abft.Store.GetLastDecidedFrame") != nil {
 				return "last"
 			}
@@ -88,9 +88,16 @@ func runC02(c *core.Ctx) {
 	p := c.P
 	c.Clause("C02.once", func() {
 		f := c.Fn("abft.Lachesis.confirmEvents")
-		lits := f.Lits()
-		c.Need(len(lits) == 1, "confirmEvents passes one filter closure")
-		l := lits[0]
+		// the filter closure: the literal handed to the walk (directly or through a local)
+		var l *core.FuncInfo
+		for _, ws := range f.CallsTo("abft.Orderer.dfsSubgraph") {
+			if len(ws.Call.Args) == 2 {
+				if lit, ok := resolveLocal(f, ws.Call.Args[1]).(*ast.FuncLit); ok {
+					l = c.P.LitInfo(lit)
+				}
+			}
+		}
+		c.Need(l != nil, "confirmEvents passes a filter closure to dfsSubgraph")
 		ev := l.Param(0)
 		cb := f.ParamNamed("onEventConfirmed")
 		if cb == nil {
@@ -101,15 +108,8 @@ func runC02(c *core.Ctx) {
 		marks := l.CallsTo("abft.Store.SetEventConfirmedOn")
 		gets := l.CallsTo("abft.Store.GetEventConfirmedOn")
 		c.Need(len(marks) == 1 && len(gets) == 1, "the closure reads and writes the confirmed mark once each")
-		isEvID := func(e ast.Expr) bool {
-			call, ok := ast.Unparen(e).(*ast.CallExpr)
-			if !ok || !methodNamed(calleeName(l, call), "ID") {
-				return false
-			}
-			sel, ok := call.Fun.(*ast.SelectorExpr)
-			return ok && varOf(l, sel.X) == ev
-		}
-		c.Check(isEvID(marks[0].Call.Args[0]) && isEvID(gets[0].Call.Args[0]) && varOf(l, marks[0].Call.Args[1]) == f.Param(0), "mark is read and written for the visited event with the block's frame", "provenance", marks[0].Pos(), "Get/SetEventConfirmedOn(e.ID(), frame)", "the confirmed mark is not keyed by the visited event or not set to the block's frame")
+		isEvID := func(e ast.Expr) bool { return ev != nil && c01MethodOn(l, e, "ID") == ev }
+		c.Check(isEvID(marks[0].Call.Args[0]) && isEvID(gets[0].Call.Args[0]) && canonVar(l, varOf(l, marks[0].Call.Args[1])) == f.Param(0), "mark is read and written for the visited event with the block's frame", "provenance", marks[0].Pos(), "Get/SetEventConfirmedOn(e.ID(), frame)", "the confirmed mark is not keyed by the visited event or not set to the block's frame")
 		// the value read
 		var dv *types.Var
 		for _, a := range assignments(l) {
@@ -127,14 +127,22 @@ func runC02(c *core.Ctx) {
 				}
 				return ""
 			})
-			return k && lc.Equal(core.ParseLinCmp("mark == 0"))
+			if !k {
+				return false
+			}
+			// the mark is an unsigned frame number: "not > 0" says the same as "== 0"
+			unsigned := false
+			if b, isB := l.Info().TypeOf(gets[0].Call).Underlying().(*types.Basic); isB && b.Info()&types.IsUnsigned != 0 {
+				unsigned = true
+			}
+			return lc.Equal(core.ParseLinCmp("mark == 0")) || (unsigned && lc.Equal(core.ParseLinCmp("mark <= 0")))
 		}
 		for _, d := range deliver {
 			ok1, wit := l.GuardedBy(d.Pt, notYet)
 			c.Check(ok1, "event delivered only if not yet confirmed", "T4 GuardedBy", d.Pos(), "the application callback is reached only on the mark == 0 edge", "an event already delivered by an earlier block (or earlier in this walk) can be delivered again: "+l.DescribePath(wit))
 			ok2, wit2 := l.MustPassBefore(core.Points(marks), d.Pt)
 			c.Check(ok2, "event marked before it is delivered", "T2 Dominates", d.Pos(), "SetEventConfirmedOn dominates the callback (the walk may reach the event twice)", "an event can be delivered without having been marked: a second visit delivers it again ("+l.DescribePath(wit2)+")")
-			c.Check(varOf(l, d.Call.Args[0]) == ev, "the visited event is what is delivered", "provenance", d.Pos(), "callback(e)", "a different event is delivered")
+			c.Check(canonVar(l, varOf(l, d.Call.Args[0])) == ev, "the visited event is what is delivered", "provenance", d.Pos(), "callback(e)", "a different event is delivered")
 		}
 		// descend (true) only when newly confirmed; already confirmed => false
 		for _, rp := range returnsWith(l, 0, func(e ast.Expr) bool { return isIdentNamed(e, "true") }) {
@@ -152,20 +160,27 @@ func runC02(c *core.Ctx) {
 		fc := f.CallsMatching(func(cs *core.CallSite) bool { return cs.Callee == types.Object(filter) })
 		push := f.CallsMatching(func(cs *core.CallSite) bool { return methodNamed(cs.Name, "Push") })
 		c.Need(len(fc) == 1 && len(push) >= 1, "dfsSubgraph filters each event and pushes parents")
+		// the event that was filtered
+		var filtered *types.Var
+		if len(fc[0].Call.Args) == 1 {
+			filtered = canonVar(f, varOf(f, fc[0].Call.Args[0]))
+		}
+		accepted := func(ft core.Fact) bool {
+			// filter(event) is true: the call itself or a local holding its result, in any spelling
+			e, truth, ok := c01BoolOperand(f.Info(), ft)
+			return ok && truth && resolveLocal(f, e) == ast.Expr(fc[0].Call)
+		}
 		for _, ps := range push {
-			ok, wit := f.GuardedBetween(fc[0].Pt, ps.Pt, func(ft core.Fact) bool {
-				return ft.Truth && ast.Unparen(ft.Expr) == ast.Expr(fc[0].Call)
-			})
+			ok, wit := f.GuardedBetween(fc[0].Pt, ps.Pt, accepted)
 			d, _ := f.MustPassBefore(core.Points(fc), ps.Pt)
 			c.Check(ok && d, "parents are visited only for accepted events", "T4 GuardedBy", ps.Pos(), "stack.Push(parent) is reached only on the filter(event) == true edge of the same iteration", "parents of a rejected (already confirmed) event are walked: "+f.DescribePath(wit))
-			// what is pushed are the event's parents
+			// what is pushed are the filtered event's parents: the push is made once per element of an
+			// iteration over event.Parents() (ranged or indexed, possibly through a local)
 			okP := false
-			if rs, isR := enclosingLoop(f, ps.Pos()).(*ast.RangeStmt); isR {
-				if call, isC := ast.Unparen(rs.X).(*ast.CallExpr); isC && methodNamed(calleeName(f, call), "Parents") {
-					okP = varOf(f, ps.Call.Args[0]) == varOf(f, rs.Value)
-				}
+			if it, isIt := core.IterationOf(f, enclosingLoop(f, ps.Pos()), c01Resolver(f)); isIt && it.FromZero && it.Coll != nil && len(ps.Call.Args) == 1 {
+				okP = c01MethodOn(f, it.Coll, "Parents") == filtered && filtered != nil && it.IsElem(ps.Call.Args[0], c01Resolver(f))
 			}
-			c.Check(okP, "the walk follows the parents relation", "provenance", ps.Pos(), "pushes each of event.Parents()", "the walk does not push the event's parents")
+			c.Check(okP, "the walk follows the parents relation", "provenance", ps.Pos(), "pushes each element of event.Parents() of the filtered event", "the walk does not push the event's parents")
 		}
 		// a missing event is an error
 		get := f.CallsTo("abft.EventSource.GetEvent")
@@ -187,42 +202,38 @@ func runC02(c *core.Ctx) {
 		c.ExpectAtLeast("writers of the confirmed mark", n, 1)
 		// ApplyEvent is only handed to confirmEvents
 		aa := c.Fn("abft.Lachesis.applyAtropos")
+		// the callback (the field or a local holding it) is never invoked here and is handed to no other
+		// function than confirmEvents; comparing it with nil is not a use
+		isApplyEvent := func(e ast.Expr) bool { return fieldNameOf(aa, e) == "lachesis.BlockCallbacks.ApplyEvent" }
 		uses := 0
 		okUse := true
-		aa.InspectOwn(func(nd ast.Node) bool {
-			sel, ok := nd.(*ast.SelectorExpr)
-			if !ok || fieldNameOf(aa, sel) != "lachesis.BlockCallbacks.ApplyEvent" {
-				return true
+		for _, cs := range aa.Calls() {
+			if isApplyEvent(cs.Call.Fun) {
+				okUse = false
 			}
-			uses++
-			// must be an argument of confirmEvents
-			found := false
-			for _, cs := range aa.CallsTo("abft.Lachesis.confirmEvents") {
-				for _, a := range cs.Call.Args {
-					if ast.Unparen(a) == ast.Expr(sel) {
-						found = true
+			for _, a := range cs.Call.Args {
+				if isApplyEvent(a) {
+					if cs.Name == "abft.Lachesis.confirmEvents" {
+						uses++
+					} else {
+						okUse = false
 					}
 				}
 			}
-			if !found {
-				okUse = false
-			}
-			return true
-		})
+		}
 		c.Check(okUse && uses >= 1, "the per-event callback is reachable only through the confirmation walk", "T6 WhoMayCall", aa.Pos(), "blockCallback.ApplyEvent is only passed to confirmEvents", "the application's per-event callback is invoked outside the confirmation walk")
 		// confirmEvents gets the decided frame and the atropos
 		ce := aa.CallsTo("abft.Lachesis.confirmEvents")
-		okArgs := len(ce) == 1 && varOf(aa, ce[0].Call.Args[0]) == aa.Param(0) && varOf(aa, ce[0].Call.Args[1]) == aa.Param(1)
+		okArgs := len(ce) == 1 && len(ce[0].Call.Args) == 3 && aa.Param(0) != nil && aa.Param(1) != nil &&
+			canonVar(aa, varOf(aa, ce[0].Call.Args[0])) == aa.Param(0) && canonVar(aa, varOf(aa, ce[0].Call.Args[1])) == aa.Param(1)
 		c.Check(okArgs, "the block's frame and Atropos drive the walk", "provenance", aa.Pos(), "confirmEvents(decidedFrame, atropos, ·)", "the walk is not given the decided frame and Atropos")
 		// the Block handed to the application carries that Atropos
 		okBlk := false
 		aa.InspectOwn(func(nd ast.Node) bool {
 			if cl, ok := nd.(*ast.CompositeLit); ok {
 				if t := aa.Info().TypeOf(cl); t != nil && t.String() == core.ModPath+"/lachesis.Block" {
-					for _, el := range cl.Elts {
-						if kv, k := el.(*ast.KeyValueExpr); k && isIdentNamed(kv.Key, "Atropos") && varOf(aa, kv.Value) == aa.Param(1) {
-							okBlk = true
-						}
+					if v, has := c01StructFields(aa, cl)["Atropos"]; has && aa.Param(1) != nil && canonVar(aa, varOf(aa, v)) == aa.Param(1) {
+						okBlk = true
 					}
 				}
 			}
@@ -249,5 +260,6 @@ func runC02(c *core.Ctx) {
 		ok := len(aa) == 1 && varOf(od, aa[0].Call.Args[0]) == od.Param(0) && varOf(od, aa[0].Call.Args[1]) == od.Param(1)
 		c.Check(ok, "the block callback gets the decided frame and Atropos", "provenance", od.Pos(), "ApplyAtropos(frame, atropos)", "the block callback is not given the decided frame/Atropos")
 	})
+	c02RootsPersisted(c)
 	_ = token.NoPos
 }
